@@ -215,6 +215,24 @@ static ASMJIT_FAVOR_SIZE Error validate(InstDB::Mode mode, const BaseInst& inst,
 
   constexpr InstOptions kRepAny = InstOptions::kX86_Rep | InstOptions::kX86_Repne;
   constexpr InstOptions kXAcqXRel = InstOptions::kX86_XAcquire | InstOptions::kX86_XRelease;
+
+  // Validate Instruction Options
+  // ----------------------------
+
+  // Bits that `InstOptions` doesn't define are refused. The encoder merges options into its internal opcode value,
+  // where the upper undefined bits alias EVEX.W and LL - they would end up in the emitted REX|VEX|EVEX prefix.
+  constexpr InstOptions kDefinedOptions =
+    InstOptions::kReserved     | InstOptions::kUnfollow     | InstOptions::kOverwrite    |
+    InstOptions::kShortForm    | InstOptions::kLongForm     | InstOptions::kTaken        | InstOptions::kNotTaken    |
+    InstOptions::kX86_ModMR    | InstOptions::kX86_ModRM    | InstOptions::kX86_Vex3     | InstOptions::kX86_Vex     |
+    InstOptions::kX86_Evex     | InstOptions::kX86_Lock     | InstOptions::kX86_Rep      | InstOptions::kX86_Repne   |
+    InstOptions::kX86_XAcquire | InstOptions::kX86_XRelease | InstOptions::kX86_AVX512Mask |
+    InstOptions::kX86_OpCodeB  | InstOptions::kX86_OpCodeX  | InstOptions::kX86_OpCodeR  | InstOptions::kX86_OpCodeW |
+    InstOptions::kX86_Rex      | InstOptions::kX86_InvalidRex;
+
+  if (ASMJIT_UNLIKELY(Support::test(options, ~kDefinedOptions))) {
+    return make_error(Error::kInvalidOption);
+  }
   constexpr InstOptions kAvx512Options = InstOptions::kX86_ZMask | InstOptions::kX86_ER | InstOptions::kX86_SAE;
 
   // Validate LOCK|XACQUIRE|XRELEASE Prefixes
